@@ -114,7 +114,15 @@ def run(check):
         r_r.violate('line layout', fn, call, 'the line is built from template %r: not three fields separated by single spaces'
                     % tpl)
         continue
-      fields_all.append((specs, fargs))
+      # a field rendered with %s from text that is itself one conversion of one value ("%d" % timestamp) is that conversion
+      specs, fargs = list(specs), list(fargs)
+      for i_ in range(3):
+        a_ = fargs[i_]
+        if specs[i_][1] == 's' and not specs[i_][0] and isinstance(a_, tuple) and a_[0] == 'fmt' and len(a_) == 3:
+          inner = fmt_specs(a_[1])
+          if len(inner) == 1 and _re.sub(r'%(?:\([^)]*\))?[-+ #0]*\d*(?:\.\d+)?[a-zA-Z]', '', a_[1].replace('%%', '')) == '':
+            specs[i_], fargs[i_] = inner[0], a_[2]
+      fields_all.append((specs, tuple(fargs)))
     if fields_all:
       specs, fargs = fields_all[0]
       srcs = []
@@ -211,7 +219,13 @@ def run(check):
     if good and name == 'sendString':
       r_f.ok('one sendString(pickle.dumps(<batch>)) per batch: frames decode independently', pfn.loc(call))
       proto = [k for k in (alternatives(t)[0][3:] if alternatives(t) else ()) if isinstance(k, tuple) and k[0] == 'kw' and k[1] == 'protocol']
-      if proto and proto[0][2] == ('const', 2):
+      pv = proto[0][2] if proto else None
+      if isinstance(pv, tuple) and pv[0] == 'param':
+        gv = pfn.module.globals.get(pv[1], [])
+        rebound = any(isinstance(x, ast.Global) and pv[1] in x.names for x in ast.walk(pfn.module.tree))
+        if len(gv) == 1 and isinstance(gv[0], ast.Constant) and not rebound:
+          pv = ('const', gv[0].value)           # a module-level constant
+      if pv == ('const', 2):
         r_f.ok('pickle protocol 2', pfn.loc(call))
       else:
         r_f.violate('pickle protocol', pfn, call, 'the batch is not pickled with protocol=2 (what every carbon version decodes)')
@@ -246,6 +260,8 @@ def run(check):
   loops = [n for n in walk_no_nested(body.node, include_self=False) if isinstance(n, (ast.For, ast.While))]
   bounded = [lp for lp in loops if isinstance(lp, ast.For) and isinstance(lp.iter, ast.Call) and dotted(lp.iter.func) in ('range', 'xrange')
              and lp.iter.args and 'MAX_DATAPOINTS_PER_MESSAGE' in unparse(lp.iter.args[-1]) and len(lp.iter.args) == 1]
+  if not bounded:
+    bounded = _bounded_while(cx, body, loops)
   if bounded:
     r_b.ok('at most MAX_DATAPOINTS_PER_MESSAGE items per batch', body.loc(bounded[0]))
   else:
@@ -262,6 +278,39 @@ def run(check):
   hs = [h for h in ast.walk(body.node) if isinstance(h, ast.ExceptHandler)]
   if hs and all('IndexError' in (unparse(h.type) if h.type is not None else '') for h in hs):
     r_b.ok('an empty queue ends the batch (IndexError -> stop)', body.loc(hs[0]))
+
+
+def _bounded_while(cx, fn, loops):
+  """while <...> and len(batch) < MAX_DATAPOINTS_PER_MESSAGE: batch.append(queue.popleft())  - one item per pass, the
+  list that is measured is the list that grows and that is returned."""
+  from ..rulelib import ValueNumbers
+  vn = ValueNumbers(cx, fn)
+  LIMIT = ('attr', ('param', 'settings'), 'MAX_DATAPOINTS_PER_MESSAGE')
+  out = []
+  for lp in loops:
+    if not isinstance(lp, ast.While) or lp.orelse:
+      continue
+    conj = lp.test.values if isinstance(lp.test, ast.BoolOp) and isinstance(lp.test.op, ast.And) else [lp.test]
+    measured = None
+    for t in conj:
+      if isinstance(t, ast.Compare) and len(t.ops) == 1 and isinstance(t.ops[0], ast.Lt) and vn.term(t.comparators[0], lp) == LIMIT and \
+         isinstance(t.left, ast.Call) and isinstance(t.left.func, ast.Name) and t.left.func.id == 'len' and len(t.left.args) == 1 and \
+         isinstance(t.left.args[0], ast.Name):
+        measured = t.left.args[0].id
+    if measured is None:
+      continue
+    grows = [s_ for s_ in lp.body if isinstance(s_, ast.Expr) and isinstance(s_.value, ast.Call) and
+             isinstance(s_.value.func, ast.Attribute) and s_.value.func.attr == 'append' and dotted(s_.value.func.value) == measured]
+    pops = [c for c in ast.walk(lp) if isinstance(c, ast.Call) and isinstance(c.func, ast.Attribute) and c.func.attr in ('popleft', 'pop')]
+    other_growth = [c for c in ast.walk(fn.node) if isinstance(c, ast.Call) and isinstance(c.func, ast.Attribute) and
+                    dotted(c.func.value) == measured and c.func.attr in ('extend', 'insert', 'append') and
+                    not any(c is g_.value for g_ in grows)]
+    rets = [r for r in walk_no_nested(fn.node, include_self=False) if isinstance(r, ast.Return)]
+    returned = rets and all(isinstance(r.value, ast.Name) and r.value.id == measured for r in rets)
+    if len(grows) == 1 and len(pops) == 1 and any(x is pops[0] for x in ast.walk(grows[0])) and not other_growth and returned and \
+       not any(isinstance(x, (ast.Continue,)) for x in ast.walk(lp)):
+      out.append(lp)
+  return out
 
 
 def _first_call_named(node, name):
